@@ -41,13 +41,15 @@ func (v Var) packageQualifier(pkg *types.Package) string {
 func varName(vr *types.Var, suffix string) string {
 	name := vr.Name()
 	if name != "" && name != "_" {
-		return name + suffix
+		name += suffix
+	} else {
+		name = varNameForType(vr.Type()) + suffix
 	}
 
-	name = varNameForType(vr.Type()) + suffix
-
+	// Names the generated method body itself must still resolve are never
+	// used as they are, whether they were generated or written by the user.
 	switch name {
-	case "mock", "callInfo", "break", "default", "func", "interface", "select", "case", "defer", "go", "map", "struct",
+	case "mock", "callInfo", "append", "panic", "nil", "break", "default", "func", "interface", "select", "case", "defer", "go", "map", "struct",
 		"chan", "else", "goto", "package", "switch", "const", "fallthrough", "if", "range", "type", "continue", "for",
 		"import", "return", "var",
 		// avoid shadowing basic types
